@@ -72,6 +72,11 @@ static Profile profile_for(const std::string &p, Rng &r, uint64_t index) {
     } else if (p == "C15" || p == "C16") {
         pf.pct_dev_frame = 3; pf.pct_mid_save = 0; pf.pct_mid_reload = 0; pf.pct_print = 0; pf.n_custom_params = 4; pf.pct_cols = 10; pf.pct_big = (p == "C15") ? 4 : 0;
         pf.max_frames = 1 + static_cast<unsigned>(r.below(6));
+    } else if (p == "C13mix") {
+        // everything at once: refused calls followed by saves, prints and restarts of the same object
+        pf.pct_bad_param = 30; pf.pct_dev_frame = 20; pf.pct_dev_col = 30; pf.pct_cols = 40; pf.pct_decl_after_data = 25; pf.n_custom_params = 8;
+        pf.pct_mid_save = 35; pf.pct_mid_reload = 20; pf.pct_print = 20; pf.pct_locks = 50; pf.pct_resubmit = 20; pf.pct_caller_mutation = 15;
+        pf.pct_space_names = 5; pf.final_save_reload = true; pf.fill_gaps_before_save = false; pf.pct_extend = 15;
     } else if (p == "C18") {
         pf.pct_print = 0; pf.pct_mid_save = 25; pf.pct_mid_reload = 25; pf.pct_big = 0; pf.max_frames = 1 + static_cast<unsigned>(r.below(6));
     }
@@ -203,7 +208,7 @@ static void gen_c15(Rng &r, Case &c, bool thorough) {
     auto add = [&](FaultSpec f) { plan.steps.push_back(saveStep(static_cast<int64_t>(r.below(4)), f)); };
     for (int e : OPEN_ERR) { FaultSpec f; f.open_errno = e; add(f); }
     std::vector<int64_t> ks;
-    if (thorough && B <= 8192) for (int64_t k = 0; k < B; ++k) ks.push_back(k);
+    if (thorough && B <= 8192) { for (int64_t k = 0; k < B; ++k) ks.push_back(k); plan.notes.push_back("exhaustive: every byte offset 0.." + tos(B - 1) + " and every write call 1.." + tos(N)); }
     else {
         int64_t bnd[] = {0, 1, 2, 3, 4, 511, 512, 513, 1023, 1024, 1025, B - 2, B - 1, B / 2};
         for (int64_t k : bnd) if (k >= 0 && k < B) ks.push_back(k);
@@ -232,7 +237,7 @@ static void gen_c16_alts(Rng &r, Case &c, const std::vector<uint8_t> &img, const
     unsigned mode = static_cast<unsigned>(c.index % 4);
     // --- truncation
     if (mode == 0 || thorough) {
-        if ((thorough && S <= 4096)) for (uint64_t L = 0; L < S; ++L) one({D_TRUNC, static_cast<int64_t>(L), 0, 0}, "trunc");
+        if ((thorough && S <= 4096)) { for (uint64_t L = 0; L < S; ++L) one({D_TRUNC, static_cast<int64_t>(L), 0, 0}, "trunc"); c.config += " exhaustive-truncation"; }
         else {
             uint64_t lim = thorough ? metaEnd : 0;
             for (uint64_t L = 0; L < lim; ++L) one({D_TRUNC, static_cast<int64_t>(L), 0, 0}, "trunc");
@@ -314,8 +319,8 @@ Case gen_case(const std::string &prop, const std::string &tier, uint64_t verif_s
         c.config = std::string("generator=") + gp;
     }
     if (prop == "C13") {
-        static const char *fam[] = {"C01", "C05", "C07", "C10", "C04", "C09", "C08", "C14", "C15", "C03", "C06", "C17"};
-        gp = fam[index % 12];
+        static const char *fam[] = {"C01", "C05", "C07", "C10", "C04", "C09", "C08", "C14", "C15", "C03", "C06", "C17", "C13mix", "C13mix", "C13mix"};
+        gp = fam[index % 15];
         c.oracles = oracles_for(gp); // oracles run too (their code paths use more accessors); only crashes count for C13
         c.config = std::string("generator=") + gp;
     }
@@ -431,7 +436,8 @@ Case gen_case(const std::string &prop, const std::string &tier, uint64_t verif_s
         c.sched.seed = mix(c.run_seed, 4242);
         c.sched.policy = static_cast<int>(r.below(3));
         c.sched.pct_depth = 1 + static_cast<int>(r.below(3));
-        c.config = "threads=" + tos(T) + " policy=" + tos(c.sched.policy);
+        { static const unsigned AP[] = {0, 0, 1, 3, 7, 16, 64}; c.sched.alloc_period = AP[r.below(7)]; }
+        c.config = "threads=" + tos(T) + " policy=" + tos(c.sched.policy) + " alloc_period=" + tos(c.sched.alloc_period);
         return c;
     } else {
         if (gp == "C16") {
@@ -439,7 +445,7 @@ Case gen_case(const std::string &prop, const std::string &tier, uint64_t verif_s
             if (k < 25) { std::string src = pickSource(r, thorough && r.chance(1, 10)); plan.steps.push_back(loadStep(src)); c.config = "base=" + src; }
             else { gen_history(r, pf, plan); c.config = "base=api"; }
         } else {
-            if ((gp == "C05" || gp == "C07" || gp == "C10" || gp == "C14" || gp == "C06" || gp == "C09") && r.chance(1, 6)) {
+            if ((gp == "C05" || gp == "C07" || gp == "C10" || gp == "C14" || gp == "C06" || gp == "C09" || gp == "C08" || gp == "C13mix") && r.chance(1, 6)) {
                 std::string src = pickSource(r, false);
                 plan.steps.push_back(loadStep(src)); // reload-then-edit states
                 c.config = "start=" + src;
@@ -610,6 +616,7 @@ CaseResult run_case(const Case &c, volatile uint64_t *progress) {
         }
         res.trace_hash = th;
         res.nontrivial = res.evaluations > 1;
+        if (c.config.find("exhaustive-truncation") != std::string::npos) res.extra["bases_with_every_truncation_length"] = 1;
         res.sample = c.config + " base=" + tos(base.size()) + "B alts=" + tos(c.alts.size());
         return res;
     }
@@ -692,7 +699,10 @@ CaseResult run_case(const Case &c, volatile uint64_t *progress) {
         }
     }
     res.nontrivial = rr.st.mutating_ok >= 1;
-    if (prop == "C15") { res.nontrivial = rr.st.hard_fired >= 1; res.evaluations = rr.st.saves; }
+    if (prop == "C15") {
+        res.nontrivial = rr.st.hard_fired >= 1; res.evaluations = rr.st.saves;
+        for (auto &n : plan.notes) if (n.compare(0, 11, "exhaustive:") == 0) res.extra["objects_with_every_offset_and_call_enumerated"] = 1;
+    }
     if (prop == "C01" || prop == "C17") res.nontrivial = res.nontrivial && rr.st.reloads >= 1;
     if (prop == "C04") res.nontrivial = rr.st.reloads >= 1; // a pure load -> save -> restart lineage makes no mutating call
     res.sample = c.config;
@@ -708,7 +718,7 @@ std::string case_to_text(const Case &c) {
       << " budgets=" << (c.arm_budgets ? 1 : 0) << " epochs=" << c.epochs << "\n";
     o << "config " << c.config << "\n";
     if (c.prop == "C18") {
-        o << "sched seed=" << c.sched.seed << " policy=" << c.sched.policy << " depth=" << c.sched.pct_depth << " replay=";
+        o << "sched seed=" << c.sched.seed << " policy=" << c.sched.policy << " depth=" << c.sched.pct_depth << " alloc_period=" << c.sched.alloc_period << " replay=";
         for (auto ch : c.sched.replay) o << static_cast<char>('0' + ch);
         o << "\n";
     }
@@ -767,6 +777,7 @@ bool case_from_text(const std::string &t, Case &c, std::string *err) {
                 if (k == "seed") c.sched.seed = std::strtoull(v.c_str(), nullptr, 10);
                 else if (k == "policy") c.sched.policy = std::atoi(v.c_str());
                 else if (k == "depth") c.sched.pct_depth = std::atoi(v.c_str());
+                else if (k == "alloc_period") c.sched.alloc_period = static_cast<unsigned>(std::atoi(v.c_str()));
                 else if (k == "replay") for (char ch : v) c.sched.replay.push_back(static_cast<uint8_t>(ch - '0'));
             }
         } else if (line.compare(0, 3, "alt") == 0) {
